@@ -8,12 +8,12 @@ CONSTANTS
  HandlerSeq <- S_HandlerSeq
  FailCodes <- S_FailCodes
  MaxCrashes = 0
- MaxConnEvents = 2
- MaxDevRestarts = 0
+ MaxConnEvents = 4
+ MaxDevRestarts = 1
  MaxFailBursts = 0
  MaxSteps = 1000000
- Fine = FALSE
- FineCtls = {"tx", "prop", "cfg", "mast", "conn"}
+ Fine = TRUE
+ FineCtls = {"cfg"}
  FineClients = FALSE
  AllPaths <- PU_All
  GoParent <- PU_GoParent
@@ -24,4 +24,5 @@ INIT MCInit
 NEXT MCNext
 CHECK_DEADLOCK FALSE
 VIEW View
-INVARIANTS C11_OnlyRealRefusalsFail C11_TxReportsClass C11_RefusalFails C09_AllTerminal C01_AtomicAtQuiescence Cover
+INVARIANTS C04_Converged C10_OneMasterPerTerm Cover
+PROPERTIES C10_Acts
